@@ -73,9 +73,11 @@ def build(case):
         k = int(rng.integers(9, 12))          # many probes (more than 8: orders that a hash-based container would not keep)
     n_samples = int(rng.integers(10, 40))
     nsw = int(rng.integers(3, 6))
+    if case.get('nsw'):
+        nsw = case['nsw']
     rate = [100., 30000., 30000.185185, 29999.9537][int(rng.integers(0, 4))]      # calibrated (fractional) rates too
     mat_mode = {m: ['all', 'some', 'none'][int(rng.integers(0, 3))] for m in ('wm', 'similar', 'wmi')}
-    if case['seed'][2] % 7 == 0:
+    if case['seed'][2] % 7 in (0, 5):
         mat_mode = {m: 'all' for m in mat_mode}          # (cases that re-use an output folder: see _run)
     tsv_mode = {t: ['all', 'some', 'none'][int(rng.integers(0, 3))] for t in TSVS}
     dt_ind = ['int32', 'uint32', 'int64', 'mixed'][int(rng.integers(0, 4))]
@@ -145,6 +147,8 @@ def build(case):
             sm = sm - sm[0] + start
             start = int(sm[-1])
             specs[p].spike_samples = sm.astype(specs[p].spike_samples.dtype)
+    if k >= 2 and rng.random() < 0.1 and nonfinite < 0 and not case.get('finite_only'):      # (C14: amplitudes of a signal-free template are 0/0)
+        specs[-1].templates[-1] = 0             # the very last template of the last probe has no signal at all
     return specs, {'k': k, 'mat_mode': mat_mode, 'tsv_mode': tsv_mode, 'dt_ind': dt_ind}
 
 
@@ -260,6 +264,23 @@ def _run(case, ctx, d, which):
             sc[members[::2]] = int(sc.max()) + 1
             s0.spike_clusters = sc
             np.save(os.path.join(subdirs_s[0], 'spike_clusters.npy'), sc)
+            if case['seed'][2] % 2 == 0 and all(v == 'all' for v in info['mat_mode'].values()):
+                # ... or the first probe is re-sorted altogether (other template and channel counts) between the two merges
+                import shutil as _sh
+                alt, _info = build({'seed': list(case['seed'][:2]) + [case['seed'][2] + 100000], 'nsw': specs[0].nsw, 'finite_only': True})
+                s_new = alt[0]
+                s_new.sample_rate = specs[0].sample_rate
+                if s_new.wm is not None and s_new.similar_templates is not None and s_new.wmi_file is not None:
+                    _sh.rmtree(subdirs_s[0])
+                    s_new.write(subdirs_s[0])
+                    specs[0] = s_new
+                    ctx.cell('first_probe_resorted_between_merges')
+                    # the expected merge is that of the inputs as they are now
+                    times_l = [s_.spike_samples.astype(np.int64) for s_ in specs]
+                    concat_t = np.concatenate(times_l)
+                    probe_of = np.concatenate([np.full(len(t_), p_) for p_, t_ in enumerate(times_l)])
+                    idx_in = np.concatenate([np.arange(len(t_)) for t_ in times_l])
+                    order = np.lexsort((idx_in, probe_of, concat_t))
             desc['probes'] = [s.describe() for s in specs]
             before = [snapshot(sd) for sd in subdirs_s]
     r = call(merger.merge)
